@@ -1193,6 +1193,14 @@ impl<'c> Gen<'c> {
             let arm = self.arm(Some((&vn, &ts)), false, ty, d, fix);
             arms.push(arm);
         }
+        // guarded `_` arms may stand anywhere before the unguarded `_` arm (if there is one),
+        // also first and also when every variant has an arm of its own
+        let n_wild = if self.c.chance(60) { 1 + self.c.below(2) } else { 0 };
+        for _ in 0..n_wild {
+            let arm = self.arm(None, true, ty, d, fix);
+            let pos = self.c.below(arms.len() + 1);
+            arms.insert(pos, arm);
+        }
         if use_default {
             if self.c.chance(50) {
                 let arm = self.arm(None, true, ty, d, fix);
